@@ -528,6 +528,23 @@ def mutations(base, label, sites="all"):
             g2.insert(ib, a)
             out.append(Variant("%s/group-name-reuse conflicting member order %s" % (label, n), s))
             break
+    # two components declare a group of the same name with different members (which definition the single
+    # emitted type follows is the known finding; that it is the same one on every run is not negotiable)
+    comps = list(b.components().values())
+    if len(comps) >= 2:
+        s = b.clone()
+        n = next_num(s)
+        flds = s.root.find("fields")
+        ET.SubElement(flds, "field", {"number": n, "name": "NoDemoIDs", "type": "NUMINGROUP"})
+        ET.SubElement(flds, "field", {"number": str(int(n) + 1), "name": "DemoIDa", "type": "STRING"})
+        ET.SubElement(flds, "field", {"number": str(int(n) + 2), "name": "DemoIDb", "type": "INT"})
+        ET.SubElement(flds, "field", {"number": str(int(n) + 3), "name": "DemoIDc", "type": "STRING"})
+        cs = list(s.components().values())
+        for ci, cdef in enumerate(cs[:3]):
+            g = ET.SubElement(cdef, "group", {"name": "NoDemoIDs", "required": "N"})
+            for m in (["DemoIDa", "DemoIDb"], ["DemoIDb", "DemoIDc", "DemoIDa"], ["DemoIDc"])[ci]:
+                ET.SubElement(g, "field", {"name": m, "required": "N"})
+        out.append(Variant("%s/group-name-reuse components declare NoDemoIDs differently" % label, s))
     # a type mapping that changes the Go type of a session-pipeline field
     for t in b.types_root.iter("type"):
         if t.get("name") == "BOOLEAN" and any(f.get("type") == "BOOLEAN" and f.get("name") in PIPELINE for f in b.fields().values()):
@@ -639,6 +656,10 @@ def tree_bytes(d):
     return m
 
 
+def a0(mod):
+    return tree_bytes(os.path.join(mod, "p"))
+
+
 def run_variant(c, idx, v):
     """returns (list of (sig, detail), info)"""
     viol = []
@@ -668,7 +689,16 @@ def run_variant(c, idx, v):
             if rc != 0:
                 viol.append(("reference-package-differs", out[-2500:]))
             return viol, "astdiff"
-        # determinism
+        # determinism (a schema with a group name declared differently in several places gets more runs: the
+        # generator keeps its definitions in maps, and an iteration order that leaks shows only now and then)
+        if "group-name-reuse" in v.name:
+            for r in range(24):
+                rcx, outx = gen("./px", mod)
+                tx = tree_bytes(os.path.join(mod, "px")) if rcx == 0 else None
+                shutil.rmtree(os.path.join(mod, "px"), ignore_errors=True)
+                if tx is None or {f: c.replace(b"package px", b"package p") for f, c in tx.items()} != a0(mod):
+                    viol.append(("nondeterministic:content", "run %d of the same schema wrote a different package (%s)" % (r + 2, v.name)))
+                    return viol, "nondeterministic"  # every later comparison has the first run as its reference
         rc2, out2 = gen("./p2", mod)
         a, b = tree_bytes(os.path.join(mod, "p")), tree_bytes(os.path.join(mod, "p2"))
         if rc2 != 0 or set(a) != set(b):
@@ -713,7 +743,7 @@ def run_variant(c, idx, v):
             shutil.rmtree(os.path.join(mod, "y"), ignore_errors=True)
         shutil.rmtree(os.path.join(mod, "p2"), ignore_errors=True)
         # one Generator object, two Execute calls (library API): both succeed and agree with the command line run
-        if not v.big or v.name == "fix44":
+        if (not v.big or v.name == "fix44") and not any(sg.startswith("nondeterministic") for sg, _ in viol):
             rc5, out5 = sh([c.twice, os.path.join(wd, "schema.xml"), os.path.join(wd, "types.xml"), os.path.join(mod, "t1", "p"), os.path.join(mod, "t2", "p")], cwd=mod, timeout=300)
             if rc5 == 3:
                 viol.append(("HARNESS:twice", out5[-400:]))
